@@ -124,6 +124,7 @@ class Search:
             b = R.save(a)
             r1, _ = R.load_bytes(b); attach(r1, cfg)
             r2, _ = R.load_bytes(b); attach(r2, cfg)
+            apply_ops(r1, cfg.get("post", [])); apply_ops(r2, cfg.get("post", []))
             advance(r1, k); advance(r2, k)
             if R.first_difference(self.semantic(R.persisted_view(r1)), self.semantic(R.persisted_view(r2))) is not None:
                 return "C05-N6:trace-collision-nondeterministic"
@@ -132,6 +133,7 @@ class Search:
                 return "C05-N7:trace-collision-step-depends-on-transient-arrays"
             ctypes.c_void_p.from_address(ctypes.addressof(r) + self.off("collisions")).value = self.libc.malloc(n * 256)
             self.poke(r, "N_allocated_collisions", n, ctypes.c_int)
+            apply_ops(a, cfg.get("post", [])); apply_ops(r, cfg.get("post", []))
             advance(a, k); advance(r, k)
             d2 = R.first_difference(self.semantic(R.persisted_view(a)), self.semantic(R.persisted_view(r)))
             return "C05-N4:trace-reads-collision-allocation-counter" if d2 is None else "C05-N7:trace-collision-step-depends-on-transient-arrays"
@@ -141,6 +143,7 @@ class Search:
             key = "F9b:bs-first_or_last_step-forced-after-load"
         if key is None:
             return None
+        apply_ops(a, cfg.get("post", [])); apply_ops(r, cfg.get("post", []))
         advance(a, k); advance(r, k)
         d2 = R.first_difference(self.semantic(R.persisted_view(a)), self.semantic(R.persisted_view(r)))
         return key if d2 is None else None
@@ -154,6 +157,7 @@ class Search:
         elif e == "bs_loosen":
             sim.ri_bs.eps_abs = cfg["edit_eps"]
             sim.ri_bs.eps_rel = cfg["edit_eps"]
+        apply_ops(sim, cfg.get("pre", []))
 
     def one(self, cfg, path, k=9):
         """save -> load -> all persisted bytes; continue k steps -> all persisted bytes"""
@@ -189,10 +193,13 @@ class Search:
         if d1b:
             c.violation("resave:" + d1b.split(" ")[0], "saving the restored simulation does not reproduce the stream: %s" % d1b, {"cfg": cfg, "path": path})
         try:
+            apply_ops(a, cfg.get("post", [])); apply_ops(r, cfg.get("post", []))
             advance(a, k); advance(r, k)
         except Exception as e:
             self.hist["error_while_continuing"] = self.hist.get("error_while_continuing", 0) + 1
             return
+        if cfg.get("pre") or cfg.get("post"):
+            self.hist["with_history_ops"] = self.hist.get("with_history_ops", 0) + 1
         va, vr = R.persisted_view(a), R.persisted_view(r)
         d2 = R.first_difference(va, vr)
         if d2 is None:
@@ -207,6 +214,162 @@ class Search:
         what = "restored simulation does not continue bit-for-bit after %d steps: %s (path %s, cfg %s)" % (k, d3, path, key)
         c.violation(fk if fk else "continue:" + cfg["integrator"] + ":" + d3.split(" ")[0], what,
                     {"cfg": cfg, "path": path, "steps": k, "difference": d3})
+
+
+def _twin_one(self, cfg, path, k=9):
+    """saving must not change the live simulation's later trajectory: a saved and a never-saved twin, same history"""
+    c, R, rb = self.c, self.R, self.rb
+    try:
+        t1 = build_sim(rb, cfg); advance(t1, cfg["save_after"]); self.pre_save_edit(t1, cfg)
+        t2 = build_sim(rb, cfg); advance(t2, cfg["save_after"]); self.pre_save_edit(t2, cfg)
+    except Exception:
+        self.hist["rejected_config"] = self.hist.get("rejected_config", 0) + 1
+        return
+    c.count(("twin", cfg_key(cfg), path, k), nontrivial=True)
+    self.hist["twin_cases"] = self.hist.get("twin_cases", 0) + 1
+    self.restore(t1, path)            # the save (through any public path); its result is discarded
+    try:
+        apply_ops(t1, cfg.get("post", [])); apply_ops(t2, cfg.get("post", []))
+        advance(t1, k); advance(t2, k)
+    except Exception:
+        self.hist["error_while_continuing"] = self.hist.get("error_while_continuing", 0) + 1
+        return
+    d = R.first_difference(self.semantic(R.persisted_view(t1)), self.semantic(R.persisted_view(t2)))
+    if d is None:
+        return
+    # counterfactual: emulate the writer's "compress IAS15 arrays" on the never-saved twin
+    t1 = build_sim(rb, cfg); advance(t1, cfg["save_after"]); self.pre_save_edit(t1, cfg)
+    t2 = build_sim(rb, cfg); advance(t2, cfg["save_after"]); self.pre_save_edit(t2, cfg)
+    self.restore(t1, path)
+    na, n = self.peek(t2, "ri_ias15.N_allocated"), self.peek(t2, "N")
+    fk = None
+    if na > 3 * n:
+        self.poke(t2, "ri_ias15.N_allocated", 3 * n)
+        fk = "C05-N9:save-compresses-live-ias15-arrays"
+    apply_ops(t1, cfg.get("post", [])); apply_ops(t2, cfg.get("post", []))
+    advance(t1, k); advance(t2, k)
+    d2 = R.first_difference(self.semantic(R.persisted_view(t1)), self.semantic(R.persisted_view(t2)))
+    if d2 is not None:
+        fk = None
+    c.violation(fk if fk else "save-changes-live-trajectory:" + cfg["integrator"],
+                "a simulation that was saved (%s) evolves differently from its never-saved twin: %s, cfg %s" % (path, d, cfg_key(cfg)),
+                {"cfg": cfg, "path": path, "steps": k, "difference": d})
+
+
+Search.twin_one = _twin_one
+
+PHYS = ("t", "dt", "N", "N_active", "particles", "steps_done", "dt_last_done")
+
+
+def _archive_one(self, cfg, k=7):
+    """every public restore path of an archive with three snapshots, each followed by bitwise continuation against
+    an uninterrupted (never saved) run"""
+    c, R, rb = self.c, self.R, self.rb
+    import warnings
+    nsteps = (3, 6, 5)
+    fn = os.path.join(self.tmp, "arch.bin")
+    if os.path.exists(fn):
+        os.remove(fn)
+    try:
+        a = build_sim(rb, cfg)
+        for n in nsteps:
+            advance(a, n)
+            a.save_to_file(fn)
+    except Exception:
+        self.hist["rejected_config"] = self.hist.get("rejected_config", 0) + 1
+        return
+    key = cfg_key(cfg)
+
+    def twin(j):
+        u = build_sim(rb, cfg)
+        advance(u, sum(nsteps[:j + 1]))
+        return u
+
+    def phys(sim):
+        names = R.names
+        return [(t, p) for t, p in R.persisted_view(sim) if names.get(t) in PHYS]
+
+    with warnings.catch_warnings():
+        warnings.simplefilter("ignore")
+        sa = rb.Simulationarchive(fn)
+        if len(sa) != 3:
+            c.violation("archive-nblobs", "archive of 3 saves has %d snapshots, cfg %s" % (len(sa), key), {"cfg": cfg})
+            return
+        paths = [("Simulation(fn)", lambda: rb.Simulation(fn), 2, None),
+                 ("Simulation(fn,snapshot=1)", lambda: rb.Simulation(fn, snapshot=1), 1, None),
+                 ("Simulation(fn,0)", lambda: rb.Simulation(fn, 0), 0, None),
+                 ("sa[1]", lambda: sa[1], 1, None), ("sa[-1]", lambda: sa[-1], 2, None),
+                 ("bytes", lambda: rb.Simulation(open(fn, "rb").read()), 2, None)]
+        dt = a.dt
+        for j in (0, 1):
+            for ku in (1, 0):
+                paths.append(("getSimulation(t%d,snapshot,ku=%d)" % (j, ku), (lambda j=j, ku=ku: sa.getSimulation(sa.t[j] + 0.3 * dt, mode="snapshot", keep_unsynchronized=ku)), j, ("snapshot", ku)))
+                paths.append(("getSimulation(t%d+,close,ku=%d)" % (j, ku), (lambda j=j, ku=ku: sa.getSimulation(sa.t[j] + 1.5 * dt, mode="close", keep_unsynchronized=ku)), j, ("close", ku)))
+            paths.append(("getSimulation(t%d+,exact)" % j, (lambda j=j: sa.getSimulation(sa.t[j] + 1.5 * dt, mode="exact")), j, ("exact", 0)))
+        paths.append(("getSimulations", lambda: list(sa.getSimulations([sa.t[0] + 0.3 * dt, sa.t[1] + 0.3 * dt]))[1], 1, ("snapshot", 1)))
+        fixed_dt = cfg["integrator"] not in ("ias15", "bs", "trace", "mercurius")
+        for name, fn_restore, j, gs in paths:
+            c.count(("archive", key, name), nontrivial=True)
+            self.hist["archive_" + name.split("(")[0]] = self.hist.get("archive_" + name.split("(")[0], 0) + 1
+            try:
+                r = fn_restore()
+                attach(r, cfg)
+            except Exception as e:
+                msg = str(e)
+                if "keep_unsynchronized == 1 is not compatible with safe_mode" in msg:
+                    c.violation("C05-N8:getSimulation-sets-whfast-keep_unsynchronized-on-saba",
+                                "restoring a SABA safe_mode=0 archive with %s raises: %s" % (name, msg), {"cfg": cfg, "path": name})
+                else:
+                    c.violation("restore-raises:" + name.split("(")[0], "public restore path %s raises %s, cfg %s" % (name, msg[:200], key), {"cfg": cfg, "path": name})
+                continue
+            try:
+                u = twin(j)
+                if gs is None:
+                    d0 = R.first_difference(self.semantic(R.persisted_view(u)), self.semantic(R.persisted_view(r)))
+                    if d0 and not uses_tree(cfg):
+                        c.violation("archive-restore:" + d0.split(" ")[0], "snapshot restored with %s differs from the uninterrupted run at that time: %s, cfg %s" % (name, d0, key),
+                                    {"cfg": cfg, "path": name})
+                        continue
+                else:
+                    mode, ku = gs
+                    # what the documentation says the call does, applied to the uninterrupted run
+                    if mode == "snapshot":
+                        if ku == 0:
+                            u.synchronize()
+                    elif mode == "close":
+                        if ku == 0:
+                            u.integrate(sa.t[j] + 1.5 * dt, exact_finish_time=0)
+                        else:
+                            while u.steps_done < r.steps_done:
+                                u.steps(1)
+                    else:
+                        u.integrate(sa.t[j] + 1.5 * dt, exact_finish_time=1)
+                advance(u, k); advance(r, k)
+                u.synchronize(); r.synchronize()
+            except Exception as e:
+                self.hist["error_while_continuing"] = self.hist.get("error_while_continuing", 0) + 1
+                continue
+            if gs is None:
+                d = R.first_difference(self.semantic(R.persisted_view(u)), self.semantic(R.persisted_view(r)))
+            else:
+                d = R.first_difference(phys(u), phys(r))
+            if d is None:
+                continue
+            fk = None
+            if uses_tree(cfg):
+                fk = "C05-N2:tree-restart-not-bitwise"
+            elif cfg["integrator"] == "trace" and cfg.get("o", {}).get("peri_mode", 1) != 1:
+                fk = "F9a:trace-peri_mode-not-persisted"
+            elif cfg["integrator"] == "eos" and gs is not None and gs[1] == 1 and cfg.get("o", {}).get("safe_mode", 1) == 0:
+                fk = "C05-N10:getSimulation-synchronizes-eos-for-real"
+            elif cfg["integrator"] in ("bs",):
+                fk = "F9b:bs-first_or_last_step-forced-after-load"
+            c.violation(fk if fk else "archive-continue:" + name.split("(")[0] + ":" + cfg["integrator"],
+                        "simulation restored with %s does not continue bit-for-bit with the uninterrupted run (%d steps): %s, cfg %s" % (name, k, d, key),
+                        {"cfg": cfg, "path": name, "steps": k, "difference": d})
+
+
+Search.archive_one = _archive_one
 
 
 def correspondence(c, exe, rb, info, R, cfgs):
@@ -466,8 +629,15 @@ def run_cases(c, S, cases, nproc=8, chunk=12):
     def work(sub):
         rec = Rec(c.seed, c.thorough)
         W = Search(rec, rb, info, R)
-        for cfg, path, k in sub:
-            W.one(cfg, path, k)
+        for case in sub:
+            cfg, path, k = case[0], case[1], case[2]
+            kind = case[3] if len(case) > 3 else "one"
+            if kind == "twin":
+                W.twin_one(cfg, path, k)
+            elif kind == "archive":
+                W.archive_one(cfg, k)
+            else:
+                W.one(cfg, path, k)
         shutil.rmtree(W.tmp, ignore_errors=True)
         return {"ev": rec.ev, "hist": W.hist}
 
@@ -509,7 +679,7 @@ def run_cases(c, S, cases, nproc=8, chunk=12):
             for one in sub:       # pin the crashing case
                 finish(start([one]))
         else:
-            cfg, path, k = sub[0]
+            cfg, path, k = sub[0][0], sub[0][1], sub[0][2]
             key = "C05-N5:load-crash-tree-flagged-particles" if uses_tree(cfg) else "crash:" + cfg["integrator"]
             c.violation(key, "save/load/continue of a reachable simulation crashes the process (status %d), cfg %s path %s" % (status, cfg_key(cfg), path),
                         {"cfg": cfg, "path": path, "steps": k})
@@ -518,6 +688,38 @@ def run_cases(c, S, cases, nproc=8, chunk=12):
         while queue and len(running) < nproc:
             running.append(start(queue.pop(0)))
         finish(running.pop(0))
+
+
+HIST_BASES = [("ias15", {}), ("ias15", {"adaptive_mode": 1}), ("whfast", {"safe_mode": 0}), ("whfast", {"safe_mode": 1}),
+              ("whfast", {"safe_mode": 0, "corrector": 11}), ("whfast", {"safe_mode": 0, "coordinates": "democraticheliocentric"}),
+              ("saba", {"safe_mode": 0}), ("saba", {"safe_mode": 1, "type": "cl4"}), ("eos", {"safe_mode": 0, "phi0": "lf4", "phi1": "lf"}),
+              ("eos", {"safe_mode": 1}), ("mercurius", {"safe_mode": 0}), ("mercurius", {"safe_mode": 1}), ("trace", {}), ("bs", {}),
+              ("leapfrog", {}), ("janus", {"order": 4})]
+
+
+def history_cases(c, cfgs):
+    """(b) histories with structural operations before the save and after the restore; save-vs-no-save twins;
+    (a) every public restore path of a three-snapshot archive"""
+    rng, out = c.rng, []
+    paths = ["buffer", "file", "copy", "pickle"]
+    nh = 4000 if c.thorough else 500
+    for i in range(nh):
+        integ, o = HIST_BASES[rng.next() % len(HIST_BASES)]
+        cfg = {"integrator": integ, "o": dict(o), "system": "close" if integ in ("mercurius", "trace") and rng.chance(0.5) else "planets",
+               "save_after": rng.randint(0, 8), "pre": PRE_OPS[rng.next() % len(PRE_OPS)], "post": POST_OPS[rng.next() % len(POST_OPS)]}
+        out.append((cfg, paths[rng.next() % 4], rng.randint(1, 12), "twin" if i % 3 == 2 else "one"))
+    # the archive paths: deferred-synchronisation integrators in safe_mode 0 (with and without correctors) first, then the rest
+    arch = [("whfast", {"safe_mode": 0}), ("whfast", {"safe_mode": 0, "corrector": 11}), ("whfast", {"safe_mode": 0, "corrector": 17, "corrector2": 1, "kernel": "lazy"}),
+            ("whfast", {"safe_mode": 0, "coordinates": "whds"}), ("whfast", {"safe_mode": 0, "kernel": "composition"}), ("whfast", {"safe_mode": 1}),
+            ("saba", {"safe_mode": 0}), ("saba", {"safe_mode": 0, "type": "cm3"}), ("saba", {"safe_mode": 1}),
+            ("mercurius", {"safe_mode": 0}), ("mercurius", {"safe_mode": 1}), ("eos", {"safe_mode": 0, "phi0": "lf4", "phi1": "lf"}), ("eos", {"safe_mode": 1}),
+            ("ias15", {}), ("leapfrog", {}), ("janus", {}), ("bs", {}), ("trace", {})]
+    for integ, o in arch:
+        for system in (("planets", "close") if c.thorough or integ in ("mercurius",) else ("planets",)):
+            out.append(({"integrator": integ, "o": o, "system": system, "save_after": 0}, "archive", 7, "archive"))
+            if c.thorough:
+                out.append(({"integrator": integ, "o": o, "system": system, "save_after": 0, "testparticles": 1}, "archive", 11, "archive"))
+    return out
 
 
 def run(c):
@@ -564,6 +766,7 @@ def run(c):
         cfg = dict(cfgs[c.rng.next() % len(cfgs)])
         cfg["save_after"] = c.rng.randint(0, 12)
         cases.append((cfg, paths[c.rng.next() % 4], c.rng.randint(1, 25)))
+    cases += history_cases(c, cfgs)
     run_cases(c, S, cases)
     c.log("lattice done (%d cases)" % len(cases))
     member_sweep(c, S, info, R, rb)
